@@ -118,7 +118,7 @@ void cc_stack_destroy(CC_Stack *stack)
 void cc_stack_destroy_cb(CC_Stack *stack, void (*cb) (void*))
 {
     cc_array_destroy_cb(stack->v, cb);
-    free(stack);
+    stack->mem_free(stack);
 }
 
 /**
